@@ -188,8 +188,10 @@ class Check(FormulaCheck):
     def c_predicates(self, spec, rec):
         rnd = self.rng(spec)
         objs = self.objs
-        allv = {'number': [0, 1, -2.5, 10 ** 12, 1e-9, -7, 3.0], 'text': ['', 'a', '1', 'TRUE', '#N/A', ' '], 'logical': [True, False],
-                'blank': [None], 'error': [objs[c] for c in CODES9]}
+        XL = hx.errors().XLError
+        allv = {'number': [0, 1, -2.5, 10 ** 12, 1e-9, -7, 3.0, -0.0, 5e-324, 1e308, 2 ** 80, -(10 ** 30)],
+                'text': ['', 'a', '1', 'TRUE', '#N/A', ' ', 'FALSE', '0', '\U00020000', type('Label', (str,), {})('x'), '1/0', 'NULL'], 'logical': [True, False],
+                'blank': [None], 'error': [objs[c] for c in CODES9] + [XL('#N/A'), XL('#VALUE!'), XL('#CUSTOM!'), type('HostXL', (XL,), {})('#REF!')]}
         for _ in range(spec['n']):
             allv['number'].append(rnd.choice([rnd.randint(-10 ** 9, 10 ** 9), rnd.uniform(-1e6, 1e6)]))
             allv['text'].append(''.join(rnd.choice('abc 12.#é') for _ in range(rnd.randint(0, 6))))
